@@ -10,6 +10,6 @@ open Model Go Spec Unicode
 /-- C16 on the source -/
 theorem src_c16_names (W : World) (L : Lang) (st : St) :
     Gen.Code.Language_String W L.value st = (.ok (L.name.toList.map Char.toNat), st) := by
-  rw [refine_Language_String, c16_names]
+  rw [refine_Language_String W L.value st (by cases L <;> decide), c16_names]
 
 end Bip39V
